@@ -15,3 +15,4 @@ def build(run):
     run.axioms += ["A-LIBM: exp>0, exp(x)>1 for x>0, exp(x)<1 for x<0, sinh sign, cosh>=1 (instances added per query)",
                    "AX-SINH sinh(y)>=y for y>=0 (C_V <= k_B), AX-TANH tanh(y)<=y (dC_V/dT >= 0): cited, only the reductions are decided",
                    "limits T->0 / T->infinity (S >= 0, C_V -> k_B) are cited, not decided"]
+    run.axioms += ["A-UNIF: numpy vectorised operations / reductions are uniform in the array length: the contracts of vectorised Python glue are proved on a generic small instance with distinct symbolic elements (one temperature row) and taken to hold for every length"]
